@@ -29,6 +29,8 @@ if TYPE_CHECKING:
 # Key for storing branch value in networkx edge.
 EDGE_DATA_BRANCH_VALUE = "branch_value"
 
+EDGE_DATA_BRANCH_VALUES = "branch_values"
+
 TRY_BEGIN_POSITION = -1
 
 FIRST_BASIC_BLOCK_NODE_INDEX = 0
@@ -852,11 +854,11 @@ class ControlDependenceGraph(ProgramGraph):
             )
 
             if least_common_ancestor is source:
-                cdg.add_edge(source, least_common_ancestor, **attr)
+                cdg._add_dependence(source, least_common_ancestor, attr)  # noqa: SLF001
 
             current = target
             while current != least_common_ancestor:
-                cdg.add_edge(source, current, **attr)
+                cdg._add_dependence(source, current, attr)  # noqa: SLF001
                 predecessors = post_dominator_tree.get_predecessors(current)
                 assert len(predecessors) == 1, (
                     "Cannot have more than one predecessor in a tree, this violates a "
@@ -869,6 +871,42 @@ class ControlDependenceGraph(ProgramGraph):
         cdg.graph.remove_node(ArtificialNode.EXIT)
 
         return cdg
+
+    def _add_dependence(self, source: ProgramNode, target: ProgramNode, attr: dict) -> None:
+        """Adds a control-dependence edge without losing an outcome already stored.
+
+        A node can be control dependent on several outcomes of the same node, e.g., on
+        both outcomes of a conditional jump in a block that also yields.  The graph holds
+        only one attribute dictionary per edge, thus all outcomes are collected in an
+        additional attribute as soon as there is more than one.
+
+        Args:
+            source: The node the target is control dependent on
+            target: The control-dependent node
+            attr: The attributes of the control-flow edge that causes the dependence
+        """
+        old_values = (
+            self._branch_values(source, target) if self._graph.has_edge(source, target) else None
+        )
+        self._graph.add_edge(source, target, **attr)
+        new_value = attr.get(EDGE_DATA_BRANCH_VALUE)
+        if old_values is not None and new_value not in old_values:
+            self._graph[source][target][EDGE_DATA_BRANCH_VALUES] = old_values | {new_value}
+
+    def _branch_values(self, source: ProgramNode, target: ProgramNode) -> frozenset[bool | None]:
+        """Provides all branch outcomes of source that target is control dependent on.
+
+        Args:
+            source: The source of a control-dependence edge
+            target: The target of a control-dependence edge
+
+        Returns:
+            The outcomes, None stands for a dependence that is not caused by a branch
+        """
+        data = self._graph.get_edge_data(source, target)
+        if EDGE_DATA_BRANCH_VALUES in data:
+            return data[EDGE_DATA_BRANCH_VALUES]
+        return frozenset((data.get(EDGE_DATA_BRANCH_VALUE, None),))
 
     def get_dominator_loops(self, node: BasicBlockNode) -> set[BasicBlockNode]:
         """Provides the set of loops that dominate the given node.
@@ -909,17 +947,12 @@ class ControlDependenceGraph(ProgramGraph):
                 continue
             handled.add((pred, node))
 
-            if (
-                isinstance(pred, BasicBlockNode)
-                and (
-                    branch_value := self._graph.get_edge_data(pred, node).get(
-                        EDGE_DATA_BRANCH_VALUE, None
-                    )
-                )
-                is not None
-            ):
-                result.add(ControlDependency(pred, branch_value))
-            else:
+            branch_values = self._branch_values(pred, node)
+            if isinstance(pred, BasicBlockNode):
+                for branch_value in (True, False):
+                    if branch_value in branch_values:
+                        result.add(ControlDependency(pred, branch_value))
+            if not isinstance(pred, BasicBlockNode) or None in branch_values:
                 result.update(self._retrieve_control_dependencies(pred, handled))
         return result
 
@@ -948,11 +981,7 @@ class ControlDependenceGraph(ProgramGraph):
             if pred in visited:
                 continue
             visited.add(pred)
-            if (
-                isinstance(pred, BasicBlockNode)
-                and self._graph.get_edge_data(pred, node).get(EDGE_DATA_BRANCH_VALUE, None)
-                is not None
-            ):
+            if isinstance(pred, BasicBlockNode) and None not in self._branch_values(pred, node):
                 continue
             if pred == node:
                 continue
